@@ -17,7 +17,26 @@ from rv import trainers as tr
 from rv.monitors import c08
 
 ALL = tr.TRAINERS
-_REC = {"installed": False, "parts": []}
+_REC = {"installed": False, "parts": [], "attribute": False, "who": []}
+
+
+def _who():
+    """(trainer class, parameter) handing a part over, found on the call stack (suite workload only)"""
+    import sys
+
+    f = sys._getframe(2)
+    trainer, param = "?", "?"
+    for _ in range(8):
+        if f is None:
+            break
+        if f.f_code.co_name == "_setacc_":
+            param = f.f_locals.get("attr", "?")
+        slf = f.f_locals.get("self")
+        if slf is not None and hasattr(type(slf), "register_cell"):
+            trainer = type(slf).__name__
+            break
+        f = f.f_back
+    return trainer, param
 
 
 def _install():
@@ -29,6 +48,8 @@ def _install():
         def fset(self, value, _orig=prop.fset, _side=side):
             if value is not None:
                 _REC["parts"].append((_side, value.detach().clone()))
+                if _REC.get("attribute"):
+                    _REC["who"].append(_who())
             return _orig(self, value)
 
         setattr(Accumulator, side, property(prop.fget, fset, prop.fdel, prop.__doc__))
@@ -234,3 +255,29 @@ def _homeostasis(ctx, desc):
                           f"step {t}: '{param}' moved away from what brings the rate toward its target "
                           f"(plasticity {lam}, rate {side} target)", rdesc,
                           {"want": want.tolist(), "got": got.tolist()})
+
+
+def run_suite(ctx):
+    """the repository's trainer tests with the Accumulator setter invariant switched on"""
+    from rv import suite
+
+    _install()
+    _REC["parts"][:] = []
+    _REC["who"][:] = []
+    _REC["attribute"] = True
+    suite.run_tests(ctx, ["learn"])
+    _REC["attribute"] = False
+    bad = set()
+    for (side, v), (trainer, param) in zip(_REC["parts"], _REC["who"]):
+        if bool(torch.isnan(v).any()) or bool((v < 0).any()):
+            bad.add((trainer, param, side))
+    ctx.counters["suite_parts_checked"] = len(_REC["parts"])
+    ctx.case("suite/test.learn")
+    ctx.case("suite/invariant=accumulator_parts_nonnegative")
+    _REC["parts"][:] = []
+    for trainer, param, side in sorted(bad):
+        part = "potentiating" if side == "pos" else "depressing"
+        mech = (f"homeostasis.{param}.{part}_part_negative" if trainer == "LinearHomeostasis"
+                else f"suite.{trainer}.{param}.{part}_part_negative")
+        ctx.violation(mech, f"{trainer} handed a negative-valued {part} part for '{param}' to an Accumulator while the "
+                      "repository's trainer tests ran", {"kind": "suite"})
